@@ -194,7 +194,7 @@ class Tr:
             parts = []
             for v in n.values:
                 if isinstance(v, ast.Constant):
-                    parts.append(lean_chars(v.value))
+                    parts.append(lean_nats(v.value) if self.spec.get("str") == "nat" else lean_chars(v.value))
                 elif isinstance(v, ast.FormattedValue) and v.conversion == -1 and v.format_spec is None:
                     t = self.typ(v.value)
                     if t == "num" and self.spec.get("numfmt"):
@@ -408,6 +408,8 @@ class Tr:
                 else:
                     parts.append(self.e(x))
             v = "(" + ", ".join(parts) + ")"
+            if self.spec.get("thread") and not self.state and self.spec.get("mode") != "except":
+                return f"({self.spec['thread']}, {v})"          # the world as it is now, next to the value returned
             return f".ok {v}" if self.spec.get("mode") == "except" else v
         v = self.e(n) if n is not None else "()"
         if self.spec.get("mode") == "except" and self.spec.get("thread"):
@@ -1865,6 +1867,16 @@ SPECS = [
          header="def pauseWriting (s : Srv.Flow.FSt) : Srv.Flow.FSt × Unit :=", state_type="Srv.Flow.FSt",
          fields={"_unsent": "unsent", "_write_paused": "paused", "_response_sent": "started"},
          types={"self._write_paused": "bool"}),
+    dict(name="limiterRequest", file="server/middleware.py", cls="RateLimiter", func="process_request", thread="w", str="nat", numfmt="Mw.intDigits",
+         header=("def limiterRequest (capacity refill_rate : Rat) (retry_after : Int) (now : Rat) (w : Mw.PyStore) (client_ip : Nat) :\n"
+                 "    Mw.PyStore × (Bool × Option (List Nat)) :="),
+         store_idiom=("self.buckets", "TokenBucket", "consume"),
+         ret_types=["bool", "optstr"],
+         rename={"self.config.capacity": "capacity", "self.config.refill_rate": "refill_rate", "self.config.retry_after": "retry_after"},
+         opaque={"self._store_has(client_ip)": "(Mw.pyHas w client_ip)"},
+         world_ops={"self._store_put": dict(fn="Mw.pyPut now", ret=None), "self._store_at": dict(fn="Mw.pyConsumeAt now", ret="bool")},
+         types={"self.config.capacity": "num", "self.config.refill_rate": "num", "self.config.retry_after": "num", "retry_after": "num", "response": "str",
+                "self._store_has(client_ip)": "bool"}),
     dict(name="evictable", file="server/middleware.py", cls="RateLimiter", func="_cleanup_loop", numbers="Rat",
          header="def evictable (bucket : BucketSt) (now : Rat) : Bool :=",
          comp_cond=("(ip, bucket)", "self.buckets.items()"), opaque={"time.monotonic()": "now"},
@@ -1926,6 +1938,71 @@ SPECS = [
 ]
 
 
+def store_idiom(f, attr: str, ctor: str, method: str):
+    """`self.<attr>` is a dictionary of mutable objects used in the one way the rate limiter uses it:
+
+        if K not in self.<attr>: self.<attr>[K] = <ctor>(a, b)
+        x = self.<attr>[K]
+        if x.<method>(): ...
+
+    What Python does here - the dictionary holds a REFERENCE, so the method call on `x` changes the object the dictionary holds under K -
+    is written out as operations on the store: `self._store_has(K)`, `self._store_put(K, a, b)`, `ok = self._store_at(K)`.  Every other
+    use of the dictionary or of `x` (a second alias, a copy, a deletion, a rebinding of K) is outside the idiom and not translated."""
+    alias: dict[str, str] = {}
+    counter = [0]
+
+    def is_store(n):
+        return ast.unparse(n) == attr
+
+    def rewrite(stmts):
+        out = []
+        for st in stmts:
+            if (isinstance(st, ast.If) and isinstance(st.test, ast.Compare) and len(st.test.ops) == 1 and isinstance(st.test.ops[0], ast.NotIn)
+                    and is_store(st.test.comparators[0]) and isinstance(st.test.left, ast.Name) and not st.orelse and len(st.body) == 1
+                    and isinstance(st.body[0], ast.Assign) and len(st.body[0].targets) == 1 and isinstance(st.body[0].targets[0], ast.Subscript)
+                    and is_store(st.body[0].targets[0].value) and ast.unparse(st.body[0].targets[0].slice) == st.test.left.id
+                    and isinstance(st.body[0].value, ast.Call) and ast.unparse(st.body[0].value.func) == ctor and not st.body[0].value.keywords):
+                k = st.test.left
+                has = ast.Call(func=ast.Attribute(value=ast.Name(id="self", ctx=ast.Load()), attr="_store_has", ctx=ast.Load()), args=[k], keywords=[])
+                put = ast.Call(func=ast.Attribute(value=ast.Name(id="self", ctx=ast.Load()), attr="_store_put", ctx=ast.Load()),
+                               args=[k] + list(st.body[0].value.args), keywords=[])
+                out.append(ast.copy_location(ast.If(test=ast.UnaryOp(op=ast.Not(), operand=has), body=[ast.copy_location(ast.Expr(value=put), st)], orelse=[]), st))
+                continue
+            if (isinstance(st, ast.Assign) and len(st.targets) == 1 and isinstance(st.targets[0], ast.Name) and isinstance(st.value, ast.Subscript)
+                    and is_store(st.value.value) and isinstance(st.value.slice, ast.Name)):
+                if st.targets[0].id in alias:
+                    raise Unsupported("a second binding of the store alias")
+                alias[st.targets[0].id] = st.value.slice.id
+                continue
+            if (isinstance(st, ast.If) and isinstance(st.test, ast.Call) and isinstance(st.test.func, ast.Attribute) and st.test.func.attr == method
+                    and isinstance(st.test.func.value, ast.Name) and st.test.func.value.id in alias and not st.test.args and not st.test.keywords):
+                counter[0] += 1
+                tmp = f"admitted_{counter[0]}"
+                call = ast.Call(func=ast.Attribute(value=ast.Name(id="self", ctx=ast.Load()), attr="_store_at", ctx=ast.Load()),
+                                args=[ast.Name(id=alias[st.test.func.value.id], ctx=ast.Load())], keywords=[])
+                out.append(ast.copy_location(ast.Assign(targets=[ast.Name(id=tmp, ctx=ast.Store())], value=call), st))
+                out.append(ast.copy_location(ast.If(test=ast.Name(id=tmp, ctx=ast.Load()), body=rewrite(st.body), orelse=rewrite(st.orelse)), st))
+                continue
+            if isinstance(st, ast.If):
+                st = ast.copy_location(ast.If(test=st.test, body=rewrite(st.body), orelse=rewrite(st.orelse)), st)
+            out.append(st)
+        return out
+
+    body = rewrite([x for x in f.body if not (isinstance(x, ast.Expr) and isinstance(x.value, ast.Constant) and isinstance(x.value.value, str))])
+    keys = set(alias.values())
+    for st in body:
+        for n in ast.walk(st):
+            if is_store(n) if isinstance(n, ast.Attribute) else False:
+                raise Unsupported(f"use of {attr} outside the get-or-create idiom")
+            if isinstance(n, ast.Name) and n.id in alias:
+                raise Unsupported(f"use of the store alias {n.id} outside the idiom")
+            if isinstance(n, ast.Name) and n.id in keys and isinstance(n.ctx, ast.Store):
+                raise Unsupported(f"the key {n.id} is re-bound")
+    if len(alias) != 1 or counter[0] != 1:
+        raise Unsupported("the get-or-create idiom was not found exactly once")
+    return body
+
+
 def find_func(tree, cls, func):
     if cls is None:
         for n in tree.body:
@@ -1956,7 +2033,7 @@ PRELUDE = {
     "dataReceived": (["NauyacaVerif.Srv.PState"], []),
     "handleMwResult": (["NauyacaVerif.Srv.PState"], []), "sendMwRejection": (["NauyacaVerif.Srv.PState"], []), "handleHandlerResult": (["NauyacaVerif.Srv.PState"], []), "handleUploadResult": (["NauyacaVerif.Srv.PState"], []),
     "handleGeminiRequest": (["NauyacaVerif.Srv.PState"], []), "processTitanUpload": (["NauyacaVerif.Srv.PState"], []),
-    "evictable": (["NauyacaVerif.Gen.Fn.Consume"], []),
+    "evictable": (["NauyacaVerif.Gen.Fn.Consume"], []), "limiterRequest": (["NauyacaVerif.Mw.StorePy"], []),
     "staticHandle": (["NauyacaVerif.Fs.StaticPy"], []), "isSafePath": (["NauyacaVerif.Fs.StaticPy"], []),
     "pumpResponse": (["NauyacaVerif.Srv.FlowPy"], []), "resumeWriting": (["NauyacaVerif.Srv.FlowPy", "NauyacaVerif.Gen.Fn.PumpResponse"], []),
     "pauseWriting": (["NauyacaVerif.Srv.FlowPy"], []), "sendResponse": (["NauyacaVerif.Srv.FlowPy", "NauyacaVerif.Gen.Fn.PumpResponse"], []), "connectionLost": (["NauyacaVerif.Srv.FlowPy"], []),
@@ -2013,6 +2090,8 @@ def translate_all() -> tuple[dict[str, str], dict[str, str]]:
                 if not tries:
                     raise Unsupported("no try statement")
                 stmts = stmts[tries[-1]:]
+            if spec.get("store_idiom"):
+                stmts = store_idiom(f, *spec["store_idiom"])
             if spec.get("comp_cond"):
                 # the function's ONE list comprehension `[x for … in … if c1 if c2]`: what is translated is its filter `c1 and c2`
                 comps = [n for n in ast.walk(f) if isinstance(n, (ast.ListComp, ast.SetComp, ast.GeneratorExp, ast.DictComp))]
